@@ -673,6 +673,10 @@ func fixChoice(x *XNode) {
 }
 
 func (c *compiler) applyDeviation(m *Mod, d *Deviation) {
+	if d.BadPrefix > 0 && d.BadPrefix < len(d.Target) {
+		c.conflict("deviation %s: step %d carries a prefix that the text does not declare", stepsString(d.Target), d.BadPrefix)
+		return
+	}
 	tgt := c.find(d.Target, true)
 	if tgt == nil {
 		c.conflict("deviation %s: target not found", stepsString(d.Target))
